@@ -7,7 +7,9 @@ META = {
                    "the demanded fail-closed abort checks (R2.1, classified by condition ingredients: received bit+MAC, Delta, own key, "
                    "open_commitment, clmul correlation, label); a received bit is used only after its MAC check (R2.3); an absent "
                    "Option<(bit,MAC)> share is an error, never 'treated as 0' (R2.4); the loop carrying a MAC check cannot be shortened by "
-                   "a peer-sized vector (R2.5); equivocation-sensitive labels use the verified broadcast (R2.6). All facts are over every CFG "
+                   "a peer-sized vector (R2.5); equivocation-sensitive labels use the verified broadcast (R2.6); an equality test is never applied to a value folded over the elements "
+                   "of a received vector (R2.8); where opened values are accepted through a symmetric fold with the own value (sum compared with 0, "
+                   "or the sum becomes a seed) the commitment binds the id of the committing party (R3.bind-id: no mirroring). All facts are over every CFG "
                    "path, i.e. for every adversarial message, index and party. Does not decide that the checks are cryptographically "
                    "sufficient or that the accepted value is f(x_honest, x').",
     "assumptions": [
@@ -27,3 +29,6 @@ def run(ctx, res):
     r2.rule_unconditional(S, res, {"pre", "online"}, cs)
     r2.rule_per_element(S, res, {"pre", "online"}, cs)
     r2.rule_verified(S, res, {"online"}, labs)
+    import r3
+    r2.enrich(S)
+    r3.rule_bind_id(S, res)
